@@ -372,8 +372,43 @@ func c18Worker(args []string) int {
 	return 0
 }
 
+// c18ExploreForPanics: part (D). The C05 exploration (every event of the public alphabet x every participant
+// id incl. uninvited ones x payload variants, in every reachable state of a round) run with one oracle
+// only: no event may end in a panic. It runs on an ordinary node and on a node started with the daemon's
+// --skip_comm_keys_verification flag, where nothing in front of the round's state machine filters
+// messages by sender (the same code path the replay of a reinit message's embedded log takes).
+func c18ExploreForPanics(c *Ctx) {
+	for _, unverified := range []bool{false, true} {
+		unverified := unverified
+		hooks := dkgHooks{onTransition: func(ex *explorer, s *exState, ev *exEvent, res *exResult, mon monC05) (monC05, bool) {
+			c.Eval(1)
+			if res.Err != nil && strings.HasPrefix(res.Err.Error(), "PANIC") {
+				where := res.Err.Error()
+				if i := strings.Index(where, "\n"); i > 0 {
+					where = where[:i]
+				}
+				c.Violate("C18/panic-in-ProcessMessage:explored:"+ev.Kind, fmt.Sprintf("%s in %s (sender verification off: %v): %s", ev.Label, res.Before, unverified, trunc(where, 200)), map[string]interface{}{"part": "explored alphabet", "path": s.Path(), "event": ev.Label, "state": res.Before, "sender_verification_off": unverified})
+				return mon, false
+			}
+			c.Distinct(fmt.Sprintf("explored|%v|%s|%s", unverified, res.Before, ev.Kind))
+			return mon, res.Accepted && res.Err == nil
+		}}
+		if unverified {
+			hooks.setup = func(ex *explorer) {
+				if sk, ok := ex.Node.Svc.(interface{ SetSkipCommKeysVerification(bool) }); ok {
+					sk.SetSkipCommKeysVerification(true)
+				}
+			}
+		}
+		st, tr, _ := exploreDKG(c, 2, 2, hooks, 20000)
+		c.Add("explored_states_for_panics", st)
+		c.Add("explored_transitions_for_panics", tr)
+	}
+}
+
 func checkC18(c *Ctx) {
-	c.Rule = "structure-aware mutation (field deletion, null, type confusion, negative/huge integers, empty/oversized/duplicated arrays, invalid/truncated/bit-flipped byte strings, hostile nested JSON inside byte fields, unknown events, short/unknown/huge round ids) of (A) every genuine board message, re-signed with the sender's real key and applied to every consuming node in the exact state in which it consumes the genuine one, plus unauthenticated openers; (B) every genuine operation fed to a replay-built clone of the airgapped machine at that step; (C) the JSON bodies of the local HTTP API served by the real router. Each part runs in a child process that logs the case before executing it; panics are caught with recover(), process death is attributed to the last logged case. Oracles: no panic / no process death; error => byte-identical durable state (node store minus offset; machine database). distinct = distinct (part, event or operation type or endpoint, state, mutation class)"
+	defer c18ExploreForPanics(c)
+	c.Rule = "structure-aware mutation (field deletion, null, type confusion, negative/huge integers, empty/oversized/duplicated arrays, invalid/truncated/bit-flipped byte strings, hostile nested JSON inside byte fields, unknown events, short/unknown/huge round ids) of (A) every genuine board message, re-signed with the sender's real key and applied to every consuming node in the exact state in which it consumes the genuine one, plus unauthenticated openers; (B) every genuine operation fed to a replay-built clone of the airgapped machine at that step; (C) the JSON bodies of the local HTTP API served by the real router. Each part runs in a child process that logs the case before executing it; panics are caught with recover(), process death is attributed to the last logged case. Oracles: no panic / no process death; error => byte-identical durable state (node store minus offset; machine database). (D) the C05 exploration of the public alphabet (every event x participant ids incl. uninvited x variants in every reachable state, n=2) with the no-panic oracle, on an ordinary node and on one started with --skip_comm_keys_verification. distinct = distinct (part, event or operation type or endpoint, state, mutation class)"
 	c.Assumptions = []string{"MemState for the node store in part A and C", "machine clones are built by copying the database and replaying its operation log", "Go native fuzzing was used during development only (not seedable)"}
 	exe, _ := os.Executable()
 	type job struct{ part, kind string }
